@@ -351,8 +351,8 @@ public:
     //! lexicographically
     bool operator<(const StringView& other) const noexcept
     {
-        return std::lexicographical_compare(ptr_, ptr_ + size_, other.ptr_,
-                                            other.ptr_ + other.size_);
+        // order characters as unsigned char, like std::string_view
+        return compare(other) < 0;
     }
 
     //! Greater than
@@ -668,14 +668,14 @@ static inline bool operator!=(const std::string& a,
 //! lexicographically
 static inline bool operator<(const StringView& a, const std::string& b) noexcept
 {
-    return std::lexicographical_compare(a.begin(), a.end(), b.begin(), b.end());
+    return a < StringView(b);
 }
 
 //! less operator to compare a StringView with a std::string
 //! lexicographically
 static inline bool operator<(const std::string& a, const StringView& b) noexcept
 {
-    return std::lexicographical_compare(a.begin(), a.end(), b.begin(), b.end());
+    return StringView(a) < b;
 }
 
 static inline bool operator>(const StringView& x, const std::string& y) noexcept
